@@ -34,6 +34,11 @@ def _c(pid, engine, technique, level_text, level_note, design_ref):
 
 
 CHECKS = [
+    _c("C16", E1,
+       "symbolic execution (CrossHair+z3) of opcodes.build_opcodes, blocks.add_pop_block_targets/compute_order and cfg_utils.order_nodes over symbolic disassemblies and digraphs",
+       "Bounded solver-certified exhaustive check on a superset of compiler output: for every bounded instruction list with symbolic jump targets, inline-cache gaps and exception-table entries, the opcode list is link-consistent with resolved jumps and correctly placed synthetic block markers, blocks partition the instructions, jump targets start blocks and the order lists every instruction-level reachable block once after a predecessor; for every digraph on N nodes order_nodes / compute_predecessors meet their contracts. One recorded finding (handler reachable only through SETUP_EXCEPT_311) is printed as KNOWN-FINDING and excluded.",
+       "Trusted: pycnite dataclasses, CrossHair, z3. Assumed compiler guarantees listed in evidence. Outside: async/generator surgery (SEND, GET_ANEXT), real compiler output, pycnite decoding.",
+       "DESIGN.md 4 C16"),
     _c("C04", E1,
        "symbolic execution (CrossHair+z3) of ErrorLog.unique_sorted_errors over symbolic error lists and of CanonicalOrderingVisitor under symbolic permutations of every sortable tuple",
        "Bounded solver-certified exhaustive check of the two ordering mechanisms through which collection order could reach the output: the error report is sorted, unique and complete for every bounded list of errors, and the canonical form of a unit does not depend on the order of any sortable tuple. The hash seed, process history and encoder bytes are NOT covered (cannot be made symbolic).",
@@ -93,5 +98,4 @@ NOT_APPLICABLE = {
     # Planned in DESIGN.md; listed here until their check is committed:
     "C05": "check under construction (DESIGN.md 4 C05); not claimed until committed",
     "C09": "check under construction (DESIGN.md 4 C09); not claimed until committed",
-    "C16": "check under construction (DESIGN.md 4 C16); not claimed until committed",
 }
